@@ -353,6 +353,9 @@ static string dump_cfg(cfg_t *cfg, int depth)
 		r += snap_opt(opt, depth);
 		// the by-name convenience accessors must agree with the by-pointer ones (exercised on every dump)
 		const char *nm = cfg_opt_name(opt);
+		// (the cross-check's own lookups must neither consume nor be hit by an injected allocation failure)
+		long saved_fail_at = vt_fail_at, saved_requests = vt_requests;
+		vt_fail_at = 0;
 		if (nm && nm[0] && !strpbrk(nm, "|=") && cfg_getopt(cfg, nm) == opt) {
 			unsigned int sz = cfg_opt_size(opt), last = sz ? sz - 1 : 0;
 			bool ok = cfg_size(cfg, nm) == sz && cfg_getcomment(cfg, nm) == cfg_opt_getcomment(opt);
@@ -386,6 +389,8 @@ static string dump_cfg(cfg_t *cfg, int depth)
 				abort();
 			}
 		}
+		vt_fail_at = saved_fail_at;
+		vt_requests = saved_requests;
 	}
 	r += "]}";
 	return r;
